@@ -70,6 +70,10 @@ func (m *DomainMatcher) Add(labels [][]byte) {
 			currentNode.AddLeaf(label)
 		} else {
 			child := currentNode.GetOrAddChild(label)
+			if child == nil {
+				// A shorter entry already ends here and covers this name.
+				return
+			}
 			currentNode = child
 		}
 	}
@@ -111,11 +115,13 @@ func (n *labelNode) AddLeaf(label []byte) {
 	}
 }
 
+// GetOrAddChild returns the child node of label, creating it when missing.
+// It returns nil if label is already a leaf of n.
 func (n *labelNode) GetOrAddChild(label []byte) *labelNode {
 	if useShortKey(label) {
 		var key [24]byte
 		copy(key[:], label)
-		if child := n.s[key]; child != nil {
+		if child, ok := n.s[key]; ok {
 			return child
 		}
 		if n.s == nil {
@@ -126,7 +132,7 @@ func (n *labelNode) GetOrAddChild(label []byte) *labelNode {
 		return child
 	}
 
-	if child := n.l[string(label)]; child != nil { // this convert does not allocate
+	if child, ok := n.l[string(label)]; ok { // this convert does not allocate
 		return child
 	}
 	if n.l == nil {
